@@ -11,6 +11,7 @@ open Ivg Ivg.Num Ivg.Gen
 
 /-! ## `uint8(w)` = `byte w` -/
 
+tolerant
 /-- Go `uint8(w)` for `w : uint32` is the model's `byte` of any natural congruent to `w` modulo 256 -/
 theorem encAux_toUInt8_eq_byte (w : UInt32) (n : Nat) (h : w.toNat % 256 = n % 256) :
     Go.cvt_u32_u8 w = Enc.byte n := by
@@ -18,23 +19,29 @@ theorem encAux_toUInt8_eq_byte (w : UInt32) (n : Nat) (h : w.toNat % 256 = n % 2
   simp only [Go.cvt_u32_u8, Enc.byte, UInt32.toNat_toUInt8, UInt8.toNat_ofNat']
   omega
 
+tolerant
 theorem encAux_shr8 (w : UInt32) : (w >>> (8 : UInt32)).toNat = w.toNat / 256 := by
   rw [UInt32.toNat_shiftRight]; exact Nat.shiftRight_eq_div_pow _ 8
+tolerant
 theorem encAux_shr16 (w : UInt32) : (w >>> (16 : UInt32)).toNat = w.toNat / 65536 := by
   rw [UInt32.toNat_shiftRight]; exact Nat.shiftRight_eq_div_pow _ 16
+tolerant
 theorem encAux_shr24 (w : UInt32) : (w >>> (24 : UInt32)).toNat = w.toNat / 16777216 := by
   rw [UInt32.toNat_shiftRight]; exact Nat.shiftRight_eq_div_pow _ 24
 
+tolerant
 /-- one byte written from a `uint32` whose value is known modulo 256 -/
 theorem encAux_bytes1 (w : UInt32) (n : Nat) (h : w.toNat % 256 = n % 256) : [Go.cvt_u32_u8 w] = [Enc.byte n] := by
   rw [encAux_toUInt8_eq_byte w n h]
 
+tolerant
 /-- the two low bytes of a `uint32`, little endian, as the Go code writes them -/
 theorem encAux_bytes2 (w : UInt32) (n : Nat) (h : w.toNat = n) :
     [Go.cvt_u32_u8 w, Go.cvt_u32_u8 (w >>> (8 : UInt32))] = [Enc.byte n, Enc.byte (n / 256)] := by
   rw [encAux_toUInt8_eq_byte w n (by rw [h]),
     encAux_toUInt8_eq_byte (w >>> (8 : UInt32)) (n / 256) (by rw [encAux_shr8, h])]
 
+tolerant
 /-- the four bytes of a `uint32`, little endian, as the Go code writes them -/
 theorem encAux_bytes4 (w : UInt32) (n : Nat) (h : w.toNat = n) :
     [Go.cvt_u32_u8 w, Go.cvt_u32_u8 (w >>> (8 : UInt32)), Go.cvt_u32_u8 (w >>> (16 : UInt32)),
@@ -47,18 +54,21 @@ theorem encAux_bytes4 (w : UInt32) (n : Nat) (h : w.toNat = n) :
 
 /-! ## shifts and ors on `Nat` -/
 
+tolerant
 /-- `4q | 1 = 4q + 1` -/
 theorem encAux_mul4_or1 (q : Nat) : (q * 4) ||| 1 = q * 4 + 1 := by
   have := Nat.shiftLeft_add_eq_or_of_lt (i := 2) (b := 1) (by decide) q
   rw [Nat.shiftLeft_eq] at this
   exact this.symm
 
+tolerant
 /-- `4q | 3 = 4q + 3` -/
 theorem encAux_mul4_or3 (q : Nat) : (q * 4) ||| 3 = q * 4 + 3 := by
   have := Nat.shiftLeft_add_eq_or_of_lt (i := 2) (b := 3) (by decide) q
   rw [Nat.shiftLeft_eq] at this
   exact this.symm
 
+tolerant
 /-- `x | 3` sets the two low bits: `x / 4 * 4 + 3` -/
 theorem encAux_or3 (x : Nat) : x ||| 3 = x / 4 * 4 + 3 := by
   have hx : x = (x / 4) <<< 2 ||| x % 4 := by
@@ -74,6 +84,7 @@ theorem encAux_or3 (x : Nat) : x ||| 3 = x / 4 * 4 + 3 := by
   conv => lhs; rw [hx, Nat.or_assoc, h3]
   rw [← Nat.shiftLeft_add_eq_or_of_lt (i := 2) (by decide), Nat.shiftLeft_eq]
 
+tolerant
 /-- `x & 0xff800000` clears the 23 low bits of a 32-bit value -/
 theorem encAux_and_hi (x : Nat) (h : x < 2 ^ 32) : x &&& 4286578688 = x / 8388608 * 8388608 := by
   apply Nat.eq_of_testBit_eq
@@ -97,33 +108,40 @@ theorem encAux_and_hi (x : Nat) (h : x < 2 ^ 32) : x &&& 4286578688 = x / 838860
       simp [h9, this]
   · simp [hi]
 
+tolerant
 /-- a multiple of `2^23` or-ed with a value below `2^23` is their sum -/
 theorem encAux_hi_or_lo (q r : Nat) (h : r < 8388608) : (q * 8388608) ||| r = q * 8388608 + r := by
   have := Nat.shiftLeft_add_eq_or_of_lt (i := 23) (b := r) (by simpa using h) q
   rw [Nat.shiftLeft_eq] at this
   exact this.symm
 
+tolerant
 /-- `x & 0x7fffff` -/
 theorem encAux_and_lo (x : Nat) : x &&& 8388607 = x % 8388608 :=
   Nat.and_two_pow_sub_one_eq_mod x 23
 
 /-! ## the `uint32` words the encoder forms -/
 
+tolerant
 theorem encAux_shl1 (u : UInt32) : (u <<< (1 : UInt32)).toNat = u.toNat * 2 % 4294967296 := by
   rw [UInt32.toNat_shiftLeft]; exact congrArg (· % 4294967296) (Nat.shiftLeft_eq _ 1)
+tolerant
 theorem encAux_shl2 (u : UInt32) : (u <<< (2 : UInt32)).toNat = u.toNat * 4 % 4294967296 := by
   rw [UInt32.toNat_shiftLeft]; exact congrArg (· % 4294967296) (Nat.shiftLeft_eq _ 2)
 
+tolerant
 /-- `u << 1`, as far as its low byte is concerned -/
 theorem encAux_shl1_mod (u : UInt32) : (u <<< (1 : UInt32)).toNat % 256 = u.toNat * 2 % 256 := by
   rw [encAux_shl1]; omega
 
+tolerant
 /-- `(u << 2) | 1` for `u < 2^30` -/
 theorem encAux_shl2_or1 (u : UInt32) (h : u.toNat < 1073741824) :
     (u <<< (2 : UInt32) ||| (1 : UInt32)).toNat = u.toNat * 4 + 1 := by
   rw [UInt32.toNat_or, encAux_shl2, Nat.mod_eq_of_lt (by omega)]
   exact encAux_mul4_or1 _
 
+tolerant
 /-- `(u << 2) | 3` in `uint32` (the shift wraps) -/
 theorem encAux_shl2_or3 (u : UInt32) :
     (u <<< (2 : UInt32) ||| (3 : UInt32)).toNat = u.toNat * 4 % 4294967296 + 3 := by
@@ -132,6 +150,7 @@ theorem encAux_shl2_or3 (u : UInt32) :
   rw [this]
   exact encAux_mul4_or3 _
 
+tolerant
 /-- `(x & 0xff800000) | lo | 3` for a 23-bit `lo` -/
 theorem encAux_real4_word (x lo : UInt32) (h : lo.toNat < 8388608) :
     ((x &&& (4286578688 : UInt32)) ||| lo ||| (3 : UInt32)).toNat
@@ -142,6 +161,7 @@ theorem encAux_real4_word (x lo : UInt32) (h : lo.toNat < 8388608) :
 
 /-! ## `int32` conversions -/
 
+tolerant
 /-- the amd64 `int32(f)` is in range -/
 theorem encAux_toInt32_range (f : F32) : -2147483648 ≤ f.toInt32 ∧ f.toInt32 < 2147483648 := by
   unfold F32.toInt32
@@ -149,10 +169,12 @@ theorem encAux_toInt32_range (f : F32) : -2147483648 ≤ f.toInt32 ∧ f.toInt32
   · omega
   · split <;> omega
 
+tolerant
 theorem encAux_toInt_cvt (f : F32) : (Go.cvt_f32_i32 f).toInt = f.toInt32 := by
   have := encAux_toInt32_range f
   exact Int32.toInt_ofInt_of_le (by omega) (by omega)
 
+tolerant
 /-- `uint32(int32(i) + k)` for a small non-negative sum -/
 theorem encAux_i32_add_toNat (i k : Int) (h0 : 0 ≤ i + k) (h1 : i + k < 4294967296) :
     (Go.cvt_i32_u32 (Int32.ofInt i + Int32.ofInt k)).toNat = (i + k).toNat := by
